@@ -51,7 +51,7 @@ ASSUMPTIONS = [
     "quantities whose definition is unstable at the input (angles of near-zero rays, Sholl radii "
     "on a node distance) are not compared",
 ]
-REQUIRED = ["pairs", "rotations", "translations", "scalings", "renumberings", "library_motions",
+REQUIRED = ["twins_measured_from_inside_a_traversal", "pairs", "rotations", "translations", "scalings", "renumberings", "library_motions",
             "length_compared", "multisets_compared", "per_node_compared", "sholl_fixed_radii_compared",
             "sholl_steps_compared", "angles_compared", "orders_compared", "volume_compared",
             "small_extent_scalings", "file_sourced_trees", "tap_sholl_get",
@@ -442,8 +442,22 @@ def _exec(ctx, case):
         want_volume = False
     soma_ok = int(spec["type"][0]) == 1
     A = measure(tree, refA, radiiA, case["steps"], nodes, want_volume, soma_ok)
-    B = measure(tree2, refB, radiiA * s, case["steps"], [int(new_of_old[u]) for u in nodes],
-                want_volume, soma_ok)
+    if case["mseed"] % 6 == 4 and n <= 120:
+        # the moved neuron measured by user code running inside a traversal of the original
+        # (comparing the two node by node): same numbers, and the walk in progress goes on
+        B, _, prob = G.inside_traversal(
+            lambda: measure(tree2, refB, radiiA * s, case["steps"],
+                            [int(new_of_old[u]) for u in nodes], want_volume, soma_ok),
+            host=tree if (n >= 2 and int(spec["pid"][0]) == -1 and
+                          np.array_equal(tree.id(), np.arange(n))) else None)
+        ctx.count("twins_measured_from_inside_a_traversal")
+        if prob:
+            raise Mismatch("measured-inside-a-traversal",
+                           f"the moved neuron's morphometrics asked for from the callbacks of a "
+                           f"traversal of the original: {prob}")
+    else:
+        B = measure(tree2, refB, radiiA * s, case["steps"], [int(new_of_old[u]) for u in nodes],
+                    want_volume, soma_ok)
     # re-key B's per-node dict is already by new ids
     compare(ctx, case, A, B, refA, refB, new_of_old, s, margin)
     case.pop("_radii_B", None)
